@@ -18,11 +18,9 @@ structure BtcOut (S : Type) where
   script : S
   deriving Repr
 
-/-- `BitcoinOnChain.ValidateTx`: the FIRST output whose value equals int64(amount) must carry the wanted script -/
+/-- `BitcoinOnChain.ValidateTx` (`findSwapOutput`): some output has the value int64(amount) AND the wanted script -/
 def validateBtc {S : Type} [DecidableEq S] (amount : Nat) (want : S) (outs : List (BtcOut S)) : Bool :=
-  match outs.find? (fun o => o.value == wrapI64 (amount : Int)) with
-  | none => false
-  | some o => decide (o.script = want)
+  (outs.find? (fun o => o.value == wrapI64 (amount : Int) && decide (o.script = want))).isSome
 
 /-- what unblinding an Elements output with the swap's blinding key yields -/
 structure Unblinded where
